@@ -239,6 +239,11 @@ class collapsed_restrict_to_data(GenericEquality):
         self.freeform = tuple(x for x in (repo, cat, pkg, multi) if x)
         self.atoms = atom_d
 
+    def _ordered_defaults(self):
+        # defaults is a set; when unfinalized it can hold -* and -flag tokens, which
+        # have to be applied before the positive ones.
+        return sorted(self.defaults, key=lambda x: (x != "-*", not x.startswith("-")))
+
     def pull_data(self, pkg, force_copy=False, pre_defaults=()):
         l = []
         for specific in self.freeform:
@@ -251,7 +256,7 @@ class collapsed_restrict_to_data(GenericEquality):
 
         if pre_defaults:
             s = set(pre_defaults)
-            incremental_expansion(self.defaults, orig=s)
+            incremental_expansion(self._ordered_defaults(), orig=s)
         else:
             s = set(self.defaults_finalized)
 
@@ -262,7 +267,7 @@ class collapsed_restrict_to_data(GenericEquality):
     def iter_pull_data(self, pkg, pre_defaults=()):
         for item in pre_defaults:
             yield item
-        for item in self.defaults:
+        for item in self._ordered_defaults():
             yield item
         for specific in self.freeform:
             for restrict, data in specific:
